@@ -454,6 +454,10 @@ def run_percolate(spec, props=("C12",)):
     A = Acc()
     n = spec["n"]
     G = gr.mk(n, [tuple(e) for e in spec["edges"]])
+    if spec.get("labels") == "shifted":
+        G = nx.relabel_nodes(G, {i: 10 + 3 * i for i in range(n)})       # labels that are not 0..N-1
+    elif spec.get("labels") == "str":
+        G = nx.relabel_nodes(G, {i: "n%d" % i for i in range(n)})
     p = spec["p"]
     fn = "percolate_network"
     runs = list(explore(sim, lambda orc: EoN.percolate_network(G, p), cap=100000, stats=A.count))
@@ -571,4 +575,7 @@ def specs(tier):
         for p in (0.0, 0.3, 1.0):
             if es:
                 out.append(dict(kind="percolate", fn="percolate_network", n=n, edges=es, p=p))
+                if n <= 3:
+                    for lab in ("shifted", "str"):
+                        out.append(dict(kind="percolate", fn="percolate_network", n=n, edges=es, p=p, labels=lab))
     return out
